@@ -51,7 +51,9 @@ RULE = ("generated directories: 1-3 species present in a start-resolution system
         "before or after the genuine start topology; in the ambiguous stream also an alias with identical atom names); explicit "
         "species whose files are listed again under another spelling (./x, relative) and/or as copies; --exclude lists of 2-3 "
         "names (adjacent / non-adjacent in discovery order = sorted start topology, all species, an explicit species among "
-        "them, both orders); explicit triples whose end topology declares another molecule name than the start topology. "
+        "them, both orders); explicit triples whose end topology declares another molecule name than the start topology; "
+        "main() itself under PYTHONHASHSEED 0..7/0..15 in subprocesses (--auto with/without --exclude): ordered molecule list "
+        "handed to auto_map, and for real runs with a fixed numpy seed the bytes of the written file. "
         "Every permutation of the candidate list when it has <= 5 (quick) / <= 6 (thorough) files, sampled otherwise; "
         "hash seeds in subprocesses.  A case is non-trivial when its (directory descriptor, order) is distinct and the "
         "directory contains at least one discoverable species.")
@@ -658,6 +660,160 @@ def run_hashseeds(jobs, seeds):
         else:
             res[s] = [(o[0], [(n, v) for n, v in o[1]]) if o[0] == "ok" else tuple(o) for o in json.loads(line[-1][6:])]
     return res
+
+
+MAIN_SCRIPT = r'''
+import json, sys, os, io, contextlib, warnings, hashlib
+warnings.filterwarnings("ignore")
+import numpy as np
+from gaddlemaps import _cli, Alignment
+jobs = json.load(open(sys.argv[1]))
+hs = os.environ.get("PYTHONHASHSEED", "x")
+home = os.getcwd()
+real_auto_map = _cli.auto_map
+out = []
+def quiet():
+    return contextlib.redirect_stdout(io.StringIO())
+for j in jobs:
+    os.chdir(j.get("cwd") or home)
+    res = {}
+    calls = []
+    def rec(init, species, scale=0.5, outfile=None):
+        calls.append([list(s) for s in species])
+    _cli.auto_map = rec
+    sys.argv = ["gaddlemaps"] + j["argv"]
+    try:
+        with quiet(), contextlib.redirect_stderr(io.StringIO()):
+            _cli.main()
+        res["molecules"] = calls[0] if len(calls) == 1 else None
+    except (Exception, SystemExit) as e:
+        res["exc"] = type(e).__name__ + ": " + str(e)[:200]
+    _cli.auto_map = real_auto_map
+    if j.get("real") and "exc" not in res:
+        outp = j["out"] + ".hs" + hs + ".gro"
+        sys.argv = ["gaddlemaps"] + j["argv"] + ["-o", outp]
+        Alignment.STEPS_FACTOR = j["steps"]
+        np.random.seed(j["seed"])
+        try:
+            with quiet(), contextlib.redirect_stderr(io.StringIO()):
+                _cli.main()
+            res["digest"] = hashlib.sha256(open(outp, "rb").read()).hexdigest()
+        except (Exception, SystemExit) as e:
+            res["exc_real"] = type(e).__name__ + ": " + str(e)[:200]
+    out.append(res)
+print("RESULT" + json.dumps(out))
+'''
+
+
+def run_main_hash(jobs, seeds):
+    """{hash seed: [result per job]}: main() in subprocesses (unpatched code) - the molecule list handed to auto_map and,
+    for real jobs, the sha256 of the written file (numpy seed fixed, STEPS_FACTOR lowered)"""
+    d = os.path.join(root(), "mh")
+    os.makedirs(d, exist_ok=True)
+    jf = os.path.join(d, "jobs_%d.json" % len(os.listdir(d)))
+    with open(jf, "w") as f:
+        json.dump(jobs, f)
+    sf = os.path.join(d, "mh.py")
+    with open(sf, "w") as f:
+        f.write(MAIN_SCRIPT)
+    procs = []
+    for s_ in seeds:
+        env = dict(os.environ)
+        env.update(lib.impl_env(str(s_)))
+        procs.append((s_, subprocess.Popen([lib.PY, sf, jf], stdout=subprocess.PIPE, stderr=subprocess.STDOUT,
+                                           universal_newlines=True, env=env, cwd=d)))
+    res = {}
+    for s_, p in procs:
+        try:
+            out, _ = p.communicate(timeout=1800)
+        except subprocess.TimeoutExpired:
+            p.kill()
+            out = ""
+        line = [l for l in out.splitlines() if l.startswith("RESULT")]
+        if p.returncode != 0 or not line:
+            res[s_] = [{"exc": "SubprocessFailed: " + out[-300:]}] * len(jobs)
+        else:
+            res[s_] = json.loads(line[-1][6:])
+    return res
+
+
+def file_digest(path):
+    import hashlib
+    with open(path, "rb") as f:
+        return hashlib.sha256(f.read()).hexdigest()
+
+
+def main_hash_job(desc, d, mol_names, auto_entries, exclude, scale, real, seed=0, steps=5, triples=None, tag="gen"):
+    """description of one main() call to be made under several hash seeds (paths absolute unless the listing has
+    relative spellings, then the process runs inside the directory)"""
+    absd = os.path.abspath(d)
+    mol = [[os.path.join(absd, x) for x in t] for t in mol_names]
+    auto = [spell(absd, e) for e in auto_entries]
+    ref = os.path.join(absd, desc["ref"])
+    os.makedirs(os.path.join(absd, "outdir"), exist_ok=True)
+    return {"argv": build_argv(ref, mol, auto, exclude, None, scale), "real": bool(real), "seed": seed, "steps": steps,
+            "cwd": absd if any(e[:4] in ("REL:", "DOT:") for e in auto_entries) else None,
+            "out": os.path.join(absd, "outdir", "hash_%s" % tag),
+            "_meta": {"kind": "main_hash", "desc": desc, "mol_names": mol_names, "auto": auto_entries, "exclude": exclude,
+                      "scale": scale, "real": bool(real), "seed": seed, "steps": steps, "triples": triples},
+            "_d": absd, "_mol": mol, "_auto": auto, "_ref": ref}
+
+
+def main_hash_eval(ctx, W, job, results):
+    """results: [(hash seed, result)] for one job.  K: the ordered molecule list against the model under every seed.
+    S: same list and same bytes for every hash seed; content as the property says; bytes = library workflow."""
+    desc, d, meta = job["_meta"]["desc"], job["_d"], job["_meta"]
+    mol, auto, exclude, scale = job["_mol"], job["_auto"], meta["exclude"], meta["scale"]
+    bad = []
+    ctx.cov["K"]["main_hash_runs"] = ctx.cov["K"].get("main_hash_runs", 0) + len(results)
+    ctx.count(("main_hash", json.dumps(meta, sort_keys=True, default=str)), True)
+    lists = {}
+    for hs_, r in results:
+        if "exc" in r or r.get("molecules") is None:
+            bad.append("PYTHONHASHSEED=%s: main() raised %s" % (hs_, r.get("exc")))
+            continue
+        lists.setdefault(json.dumps(r["molecules"]), []).append(hs_)
+    if len(lists) > 1:
+        bad.append("the molecule list handed to auto_map depends on the hash seed: " +
+                   "; ".join("seeds %s -> %s" % (v, [os.path.basename(t[0]) for t in json.loads(k)]) for k, v in lists.items()))
+    if desc is not None:
+        stream, tbl, pairs = model_tables(desc, d)
+        for k in lists:
+            W.add("chk_main %s %s %s %s %s %s %s" % (
+                stream, tbl, pairs, coq_opt(mol if mol else None, coq_triples), coq_opt(auto, coq_strs),
+                coq_opt(exclude, coq_strs), "(Some %s)" % coq_triples(json.loads(k))), meta)
+        if lists:
+            first = json.loads(next(iter(lists)))
+            bad += oracle_main_record(desc, d, mol, True, exclude, None, scale,
+                                      ("ok", {"molecules": first, "outfile": None, "scale": 0.5 if scale is None else scale,
+                                              "init": os.path.join(d, desc["ref"])}))
+    if meta["real"]:
+        digs = {}
+        for hs_, r in results:
+            if "exc_real" in r:
+                bad.append("PYTHONHASHSEED=%s: main() raised %s" % (hs_, r["exc_real"]))
+            elif "digest" in r:
+                digs.setdefault(r["digest"], []).append(hs_)
+        if len(digs) > 1:
+            bad.append("same command line, same numpy seed %d: the written file differs between hash seeds %s" %
+                       (meta["seed"], sorted(digs.values())))
+        if digs and lists and not bad:
+            # the library workflow for the same molecules (explicit ones, then the discovered ones)
+            mols = [tuple(t) for t in json.loads(next(iter(lists)))]
+            nexp = len(mol)
+            lib_out = job["out"] + ".library.gro"
+            same = False
+            for perm in itertools.permutations(mols[nexp:]):
+                library_workflow(job["_ref"], mols[:nexp] + list(perm), 0.5 if scale is None else scale, lib_out,
+                                 meta["seed"], meta["steps"], cwd=job.get("cwd"))
+                if file_digest(lib_out) in digs:
+                    same = True
+                    break
+            if not same:
+                bad.append("output differs from the library workflow (seed %d) for molecules %s" % (meta["seed"], mols))
+    if bad:
+        ctx.violation("main() under hash seeds: " + "; ".join(bad[:4]), meta, key="main_hash")
+    return bad
 
 
 class Recorder:
@@ -1285,7 +1441,8 @@ def corpus_descs():
            "auto": ["MOLA_CG.itp", "MOLA_AA.itp", "MOLA_AA.gro", "M1_CG.itp", "M1_AA.itp", "M1_AA.gro", "M2_CG.itp",
                     "M2_AA.itp", "M2_AA.gro", "notes.txt", "system.gro"],
            "known": [], "exclude": None, "geom_seed": 7, "profile": "corpus-exclude-adjacent",
-           "main_cases": [["M1", "M2"], ["M2", "MOLA"], ["MOLA", "M2"], ["M1", "M2", "MOLA"], ["M1"], ["M1", "MOLA"]]}
+           "main_cases": [["M1", "M2"], ["M2", "MOLA"], ["MOLA", "M2"], ["M1", "M2", "MOLA"], ["M1"], ["M1", "MOLA"]],
+           "hash_cases": [["M2"], ["NOPE"]]}
     # explicit triple whose end topology declares another molecule name than its start topology (seeded C20-6)
     ren = {"name": "RENMOLA", "cg": mola["aa"], "aa": mola["aa"], "same_sig": True}
     rend = {"species": [mola, m1, ren], "in_system": ["MOLA", "M1"], "blocks": [["M1", 2], ["MOLA", 2]],
@@ -1325,6 +1482,13 @@ def corpus(ctx):
         for excl in desc.get("main_cases", []):
             main_record_fixed(ctx, ctx._c20, desc, d, True, excl, None, None)
             S["corpus"] += 1
+        hjobs = [main_hash_job(desc, d, [], desc["auto"], excl, 0.8, True, seed=2020, steps=5, tag="c%d" % i)
+                 for i, excl in enumerate(desc.get("hash_cases", []))]
+        if hjobs:
+            hres = run_main_hash([{k: v for k, v in jb.items() if not k.startswith("_")} for jb in hjobs], list(range(8)))
+            for i, jb in enumerate(hjobs):
+                main_hash_eval(ctx, ctx._c20, jb, [(s_, r[i]) for s_, r in sorted(hres.items())])
+                S["corpus"] += 1
         for i, rc in enumerate(desc.get("real_cases", [])):
             main_real_case(ctx, ctx._c20, d, desc["ref"], [list(t) for t in rc["mol"]], rc["auto"], None, rc["out_mode"],
                            rc["scale"], ["abs", "rel"][i % 2], 20, 5, {"kind": "main_real", "desc": desc},
@@ -1455,6 +1619,39 @@ def correspondence(ctx):
                        form, int(rs.randint(0, 10 ** 6)), 5,
                        {"kind": "main_real", "desc": desc}, triples)
     hist["main_real"] = nreal
+    # ---- main() under hash seeds: order of the molecule list (recorded) and bytes of the output (real)
+    hjobs = []
+    pool = [it for it in main_pool if len(exclusion_patterns(it[0], it[1], [[os.path.join(it[1], x) for x in k_]
+                                                                           for k_ in it[0]["known"]])) > 2]
+    for k in range(ctx.n(24, 120)):
+        if not pool:
+            break
+        desc, d = pool[int(rs.randint(0, len(pool)))]
+        pats = exclusion_patterns(desc, d, [[os.path.join(d, x) for x in k_] for k_ in desc["known"]])
+        excl = [["NOPE"], ["SOL", "NOPE"], pats[int(rs.randint(0, len(pats)))], None][int(rs.randint(0, 4))]
+        hjobs.append(main_hash_job(desc, d, desc["known"], desc["auto"], excl, None, False, tag="r%d" % k))
+    for k in range(ctx.n(5, 20)):
+        desc = make_descriptor(rs, "full", for_mapping=True, nsp=3)
+        d = materialize(desc, os.path.join(root(), "h%d" % k))
+        tr = {}
+        for sp in desc["species"]:
+            if sp["name"] in desc["in_system"]:
+                fs = {("cg" if f["res"] == "cg" else "aa_top"): f["name"] for f in desc["files"]
+                      if f["kind"] == "top" and f["mol"] == sp["name"]}
+                co = [f["name"] for f in desc["files"] if f["kind"] == "coor" and f["mols"] == [[sp["name"], "aa"]]]
+                tr[sp["name"]] = [fs["cg"], co[0], fs["aa_top"]]
+        # same-signature species explicitly (either orientation would be acceptable otherwise); --exclude with any name
+        mol_names = [tr[n] for n in sorted(tr) if species_of(desc, n)["same_sig"]]
+        left = [n for n in sorted(tr) if not species_of(desc, n)["same_sig"]]
+        excl = [["NOPE"], [left[0]] if len(left) >= 3 else ["SOL"], ["SOL", "NOPE"]][k % 3]
+        hjobs.append(main_hash_job(desc, d, mol_names, desc["auto"], excl, [None, 0.8][k % 2], True,
+                                   seed=int(rs.randint(0, 10 ** 6)), steps=5, triples=tr, tag="h%d" % k))
+    if hjobs:
+        hseeds = list(range(ctx.n(8, 16)))
+        hres = run_main_hash([{k_: v for k_, v in jb.items() if not k_.startswith("_")} for jb in hjobs], hseeds)
+        for i, jb in enumerate(hjobs):
+            main_hash_eval(ctx, W, jb, [(s_, r[i]) for s_, r in sorted(hres.items())])
+    hist["main_hash"] = len(hjobs)
     shipped_discovery(ctx)
     shipped_mapping(ctx, W)
     hist["shipped"] = 1
@@ -1519,6 +1716,12 @@ def replay(ctx, obj):
                           r["outfile"], r["scale"])
         bad = oracle_main_record(desc, d, mol, r["use_auto"], r["exclude"], r["outfile"], r["scale"],
                                  impl_main_record(argv, cwd=d if needs_cwd(desc) else None))
+    elif kind == "main_hash":
+        d = materialize(r["desc"], os.path.join(root(), "replay"))
+        jb = main_hash_job(r["desc"], d, r["mol_names"], r["auto"], r["exclude"], r["scale"], r["real"], seed=r["seed"],
+                           steps=r["steps"], triples=r.get("triples"), tag="replay")
+        hres = run_main_hash([{k: v for k, v in jb.items() if not k.startswith("_")}], list(range(8)))
+        bad = main_hash_eval(ctx, W, jb, [(s_, x[0]) for s_, x in sorted(hres.items())])
     elif kind == "shipped_discovery":
         bad = shipped_discovery(ctx)
     elif kind == "shipped_mapping":
